@@ -146,6 +146,11 @@ def mk_ext(kind: str, args: List[Term]) -> Term:
         flat = [a for a in flat if a not in LIMITS] or [("K", "FLOAT_MAX")]
         if len(flat) == 1:
             return flat[0]
+    if kind == "max" and len(flat) > 1 and any(is_neg_float_max(a) for a in flat):
+        # ... and so is max(v, -FLOAT_MAX)
+        flat = [a for a in flat if not is_neg_float_max(a)] or [("neg", ("K", "FLOAT_MAX"))]
+        if len(flat) == 1:
+            return flat[0]
     return (kind, tuple(sorted(flat, key=tkey)))
 
 
@@ -1949,6 +1954,10 @@ class Walker:
                 # `x is None` with x known to be None (a default argument of an inlined helper), or a fresh object
                 if o in ("is", "is not") and nonish(right) and (nonish(left) or left[0] in ("alloc", "new", "tuple", "dict")):
                     parts.append(("const", nonish(left) == (o == "is")))
+                elif o in ("is", "is not") and nonish(right) and left[0] == "sel" and none_test_of_merge(left) is not None:
+                    # `if x is not None: x = normalise(x)` and then `x is not None` again: the same test of the old x
+                    t = none_test_of_merge(left)
+                    parts.append(t if o == "is not" else mk_not(t))
                 else:
                     parts.append(mk_cmp(o, left, right))
                 left = right
@@ -2245,6 +2254,14 @@ class Walker:
             if mi and name in mi.functions:
                 fi = mi.functions[name]
                 if self.inline(fi) and len(self.fnstack) <= self.max_depth and fi not in self.fnstack:
+                    return self.inline_call(fi, None, args, kwargs, e)
+            # `Class.helper(...)`: a static method called through its class
+            cname = mod.rpartition(".")[2]
+            owners = [ci for m2 in self.repo.modules.values() for cn, ci in m2.classes.items() if cn == cname]
+            if mi is None and len(owners) == 1 and name in owners[0].methods:
+                fi = owners[0].methods[name]
+                if any(d.split("(")[0].split(".")[-1] == "staticmethod" for d in fi.decorators) and self.inline(fi) \
+                        and len(self.fnstack) <= self.max_depth and fi not in self.fnstack:
                     return self.inline_call(fi, None, args, kwargs, e)
         t = ("call", fn, args, kwargs)
         self.emit("call", e, target=fn, value=t, name=fname or show(fn), args=args, kwargs=kwargs)
@@ -2632,6 +2649,52 @@ def facts(guards) -> Tuple[Term, ...]:
 def has_guard(guards, term: Term) -> bool:
     """Is `term` (positive form) among the guards, whatever polarity/spelling the source used?"""
     return term in facts(guards)
+
+
+ARRAY_VIEWS = ("ravel", "flatten", "reshape", "astype", "copy", "squeeze", "tolist")
+
+
+def never_none(t: Term) -> bool:
+    """A value that is an object of this walk or the result of a numpy constructor / array method: not None."""
+    if t[0] in ("alloc", "new", "tuple", "dict", "list", "listcomp"):
+        return True
+    if t[0] == "call" and t[1][0] == "mod" and t[1][1].startswith("numpy."):
+        return True
+    if t[0] == "call" and t[1][0] == "attr" and t[1][2] in ARRAY_VIEWS:
+        return never_none(t[1][1])
+    return False
+
+
+def none_test_of_merge(v: Term) -> Optional[Term]:
+    """For v = sel(c, A, B) the term of `v is not None`, when each arm decides it: with c = `B is not None` and A never
+    None it is c itself (the else-arm is reached only with B None)."""
+    c, a, b = v[1], v[2], v[3]
+
+    def arm(x, other_known):
+        if x == ("const", None):
+            return False
+        if never_none(x):
+            return True
+        return other_known
+
+    # what c says about an arm that is tested by c itself
+    ka = kb = None
+    if c == ("cmp", "is not", b, ("const", None)):
+        kb = False  # else-arm: b is None
+    if c == ("cmp", "is", b, ("const", None)):
+        kb = None
+    if c == ("cmp", "is", a, ("const", None)):
+        ka = False  # then-arm: a is None
+    if c == ("cmp", "is not", a, ("const", None)):
+        ka = True
+    if c == ("cmp", "is", b, ("const", None)):
+        kb = True  # else-arm: b is not None
+    ta, tb = arm(a, ka), arm(b, kb)
+    if ta is None or tb is None:
+        return None
+    if ta == tb:
+        return ("const", ta)
+    return c if ta else mk_not(c)
 
 
 def not_nil_forms(t: Term) -> List[Term]:
